@@ -125,6 +125,28 @@ def run(F, tier, res):
                     r[0] == 'param' and r[2] and r[2][-1] == 'line' for a in c['args'][:2] for r in F.trace(p, a)):
                 m += 1
     res.rule('C08.LINE-PREDICATES', m, 15, 'marker / regex predicates in state-machine methods whose subject is the stripped `line`')
+    # ---------- MEASURE: inside the escape-aware module a possibly-escaped string is never measured directly: display widths are taken
+    # of text items of the (text, is_escape) iterator or of stripped strings only ("stripped before ... measuring")
+    nm_ = okm_ = 0
+    for q in sorted(F.fn_bodies):
+        if not q.startswith('ansi::') or '{closure' in q or q.startswith('ansi::iterator') or q.startswith('ansi::console_tests') or '::tests::' in q:
+            continue
+        mirq = F.bodies[q]['mir']
+        str_params = {i for i in range(1, mirq['arg_count'] + 1) if mirq['locals'][i].replace(' ', '') in ('&str', "&'astr")}
+        if not str_params:
+            continue
+        for i, c in F.calls(q):
+            cal = callee_of(c)
+            if not (cal.endswith('UnicodeWidthStr>::width') or cal.endswith('UnicodeWidthStr>::width_cjk') or cal.endswith('::width') and 'UnicodeWidth' in callee_full(c)):
+                continue
+            nm_ += 1
+            direct = any(r[0] == 'param' and r[1] in str_params and not r[2] for r in F.trace(q, c['args'][0]))
+            if direct:
+                res.violate('MEASURE', 'fn=%s' % q, 'the display width of a string that may contain escape sequences is taken directly (its escape bytes are counted as text): '
+                            'coloured input is measured differently from the same text uncoloured', where=F.span_of_call(c))
+            else:
+                okm_ += 1
+    res.rule('C08.MEASURE', nm_, 1, 'width() calls in the escape-aware module: none on a raw &str parameter', discharged=okm_)
     # ---------- RAW-STYLE: a hunk line whose style is `raw` always keeps its raw form (escape sequences or not)
     nr = okr = 0
     mrl = [q for q in F.fn_bodies if q.endswith('::maybe_raw_line')]
